@@ -730,6 +730,25 @@ func foldDigit(Q, P []uint64, src []uint64, dst [][]uint64, lvl int) {
 	}
 }
 
+// MULMOD control: the product of two scales modulo t in native arithmetic
+func mulScales(a, b, t uint64) uint64 {
+	return (a * b) % t
+}
+
+// SUBCOPY control: the inner evaluator (scratch memory of its own) is shared by the copies
+type innerEval struct{ buf []uint64 }
+
+func (e *innerEval) ShallowCopy() *innerEval { return &innerEval{buf: make([]uint64, len(e.buf))} }
+
+type outerEval struct {
+	table []uint64
+	inner *innerEval
+}
+
+func (e outerEval) ShallowCopy() *outerEval {
+	return &outerEval{table: e.table, inner: e.inner}
+}
+
 // INDEG control: the first two components of the input, whatever its degree
 func (e fixEvaluator) SumTwo(ctIn, opOut *rlwe.Ciphertext) {
 	e.r.Add(ctIn.Value[0], ctIn.Value[1], opOut.Value[0])
